@@ -1267,13 +1267,14 @@ impl PolicyState {
     }
     fn call(&mut self, score: f32) -> f32 {
         self.theta = match &self.policy {
-            Policy::Const(b) => f32::from_bits(*b),
-            Policy::Staircase => score,
+            Policy::Const(b) => f32::from_bits(*b).max(self.theta),
+            Policy::Staircase => score.max(self.theta),
             Policy::KthBest(k) => {
                 self.best.push(score);
                 self.best.sort_by(|a, b| b.partial_cmp(a).unwrap());
                 self.best.truncate(*k);
-                if self.best.len() == *k { self.best[*k - 1] } else { self.theta }
+                // thresholds never decrease (the contract the multi-scorer drivers rely on)
+                if self.best.len() == *k { self.best[*k - 1].max(self.theta) } else { self.theta }
             }
         };
         self.theta
